@@ -152,6 +152,9 @@ def run_concrete(c, inputs, want_trace=False):
         try:
             env["_old"] = [eval(o, glob, old_env) for o in olds]
             ok = bool(eval(code, glob, env))
+        except (RecursionError, MemoryError) as ex:
+            # a limit of the checker's own spec evaluation, never evidence about the code under test
+            return {"status": "pre-false", "why": "spec evaluation hit an interpreter limit: %r" % (ex,)}
         except Exception as ex:
             ok = False
             e = "%s  [evaluation raised %r]" % (e, ex)
